@@ -13,13 +13,13 @@ type VerifGeom struct {
 
 var VerifGeoms = []VerifGeom{
 	{image.Rect(0, 0, 2, 2), image.Rect(0, 0, 2, 2)},
-	{image.Rect(-2, 3, -1, 5), image.Rect(-2, 3, -1, 5)},     // 1x2, negative origin
-	{image.Rect(1, 1, 3, 2), image.Rect(0, 0, 4, 3)},          // 2x1 sub-image, stride > width
-	{image.Rect(3, -2, 3, 0), image.Rect(3, -2, 3, 0)},        // empty (zero width)
-	{image.Rect(0, 0, 1, 1), image.Rect(0, 0, 1, 1)},          // 1x1
-	{image.Rect(5, 5, 6, 8), image.Rect(4, 4, 8, 9)},          // 1x3 sub-image
-	{image.Rect(0, 0, 3, 1), image.Rect(0, 0, 3, 1)},          // 3x1
-	{image.Rect(-1, -1, 1, 1), image.Rect(-2, -2, 2, 2)},      // 2x2 sub-image around the origin
+	{image.Rect(-2, 3, -1, 5), image.Rect(-2, 3, -1, 5)}, // 1x2, negative origin
+	{image.Rect(1, 1, 3, 2), image.Rect(0, 0, 4, 3)},     // 2x1 sub-image, stride > width
+	{image.Rect(3, -2, 3, 0), image.Rect(3, -2, 3, 0)},   // empty (zero width)
+	{image.Rect(0, 0, 1, 1), image.Rect(0, 0, 1, 1)},     // 1x1
+	{image.Rect(5, 5, 6, 8), image.Rect(4, 4, 8, 9)},     // 1x3 sub-image
+	{image.Rect(0, 0, 3, 1), image.Rect(0, 0, 3, 1)},     // 3x1
+	{image.Rect(-1, -1, 1, 1), image.Rect(-2, -2, 2, 2)}, // 2x2 sub-image around the origin
 }
 
 func Fill(pix []byte) {
@@ -97,3 +97,36 @@ func VerifSource(kind int, g VerifGeom) (image.Image, [][]byte) {
 	}
 }
 
+// VerifPaletteCopy returns the palette entries of a paletted source built by VerifSource
+// (all color.NRGBA), nil for any other image.
+func VerifPaletteCopy(src image.Image) []color.NRGBA {
+	p, ok := src.(*image.Paletted)
+	if !ok {
+		return nil
+	}
+	var out []color.NRGBA
+	for _, c := range p.Palette {
+		n, _ := c.(color.NRGBA)
+		out = append(out, n)
+	}
+	return out
+}
+
+// VerifPaletteIntact reports whether the palette of a paletted source still holds the same
+// entries, of the same dynamic type (the palette is part of the input image).
+func VerifPaletteIntact(src image.Image, before []color.NRGBA) bool {
+	p, ok := src.(*image.Paletted)
+	if !ok {
+		return true
+	}
+	if len(p.Palette) != len(before) {
+		return false
+	}
+	for i, c := range p.Palette {
+		n, isN := c.(color.NRGBA)
+		if !isN || n != before[i] {
+			return false
+		}
+	}
+	return true
+}
